@@ -184,6 +184,16 @@ namespace occa {
           }
         }
 
+        // The launch model has 3 outer and 3 inner dimensions
+        if (outerLoopCount > 3) {
+          loopPath.last()->printError("Cannot have more than 3 nested [@outer] loops");
+          return false;
+        }
+        if (innerLoopCount > 3) {
+          loopPath.last()->printError("Cannot have more than 3 nested [@inner] loops");
+          return false;
+        }
+
         // The !outerLoopCount is covered inside the "inner" check above
         if (!innerLoopCount) {
           for (auto smnt : loopPath) {
